@@ -31,21 +31,25 @@ BODIES = {
 INVARIANTS = ["FilesCoherent", "SourceCoherent", "InferNoStalePositive", "ImportsCoherent", "CachedIsWatched"]
 
 
-def constants(max_ops, external=True, two_packages=False):
+def constants(max_ops, external=True, two_packages=False, world=None):
+    w = {None: ("MCInitTreesC", "MCUniverse"), "two": ("MCInitTreesC2", "MCUniverse2"),
+         "topackage": ("MCInitTreesC3", "MCUniverse3"), "pair": ("MCInitTreesC4", "MCUniverse4")}[
+             "two" if two_packages else world]
     return {
-        "DirNames": {"pkg", "q"}, "FileNames": {"a", "b", "i", "t"}, "MaxDepth": 2,
+        "DirNames": {"pkg", "q", "A"}, "FileNames": {"a", "b", "i", "t"}, "MaxDepth": 2,
         "MaxOps": max_ops, "Contents": {1, 2},
         "ImportsOf": tlc.Sub("MCImports"),
-        "InitTreesC": tlc.Sub("MCInitTreesC2" if two_packages else "MCInitTreesC"),
-        "Universe": tlc.Sub("MCUniverse2" if two_packages else "MCUniverse"), "AllowExternal": external,
-        "ForgetOnStructure": True,
+        "InitTreesC": tlc.Sub(w[0]),
+        "Universe": tlc.Sub(w[1]), "AllowExternal": external,
+        "ForgetOnStructure": True, "Exclusive": tlc.Sub("MCExclusive"),
     }
 
 
 def rpath(p):
     names = list(p)
-    last = names[-1]
-    if last in ("pkg", "q"):
+    names = ["a" if n == "A" else n for n in names]     # the folder a/ (package) next to a.py
+    last = p[-1]
+    if last in ("pkg", "q", "A"):
         return "/".join(names)
     if last == "t":
         names[-1] = "t.txt"
@@ -57,7 +61,7 @@ def rpath(p):
 
 
 def is_dir(p):
-    return p[-1] in ("pkg", "q")
+    return p[-1] in ("pkg", "q", "A")
 
 
 def render(root, pairs):
@@ -305,6 +309,8 @@ def main(tier):
     plan = [("exhaustive-3ops", constants(4), "export", None),
             ("two-packages-3ops", constants(4, external=False, two_packages=True), "export", None),
             ("two-packages-q-ignored-3ops", constants(4, external=False, two_packages=True), "export-ignored", None),
+            ("module-to-package-4ops", constants(5, external=False, world="topackage"), "export", None),
+            ("two-modules-requery-4ops", constants(5, external=True, world="pair"), "export", None),
             ("deep-view-4ops", constants(5), "deep", None),
             ("simulation-8ops", constants(9), "sim", 2000 if tier == "quick" else 30000)]
     if tier == "thorough":
